@@ -215,21 +215,31 @@ def r4_seed_propagation(ctx, rep, R='C11.R4'):
              '<options.shuffle_seed> to the child command line whenever shuffling is on')
     m = ctx.model
     init = m.func('shuffle.Shuffle.__init__')
-    clock = [n for n in ast.walk(init.node) if isinstance(n, ast.Assign) and any(
-        dotted(t) == 'self.seed' for t in n.targets) and 'time' in norm(n.value)]
-    rec = [n for n in ast.walk(init.node) if isinstance(n, ast.Assign) and any(
-        (dotted(t) or '').endswith('options.shuffle_seed') for t in n.targets) and
-        dotted(n.value) == 'self.seed']
+    g = ctx.cfg(init)
+    assigns = local_assignments(init.node)
+    clock = [x for x in g.nodes if x.kind == 'stmt' and isinstance(x.ast, ast.Assign) and
+             any((m.resolve_dotted(init.module, dotted(c.func)) or '').startswith('time.')
+                 for c in ast.walk(x.ast.value) if isinstance(c, ast.Call) and dotted(c.func))]
     ok = True
     if clock:
-        g = ctx.cfg(init)
-        cn = [x.id for x in g.nodes if x.ast in clock]
-        rn = [x.id for x in g.nodes if x.ast in rec]
-        okp, _ = g.every_path_passes(cn, [g.exit], set(rn))
-        ok = bool(rn) and okp
+        tnames = {dotted(t) for x in clock for t in x.ast.targets if dotted(t)}
+        rec = [x.id for x in g.nodes if x.kind == 'stmt' and isinstance(x.ast, ast.Assign) and any(
+            (dotted(t) or '').endswith('options.shuffle_seed') for t in x.ast.targets) and
+            (sources_of(x.ast.value, {}) & tnames)]
+        okp, _ = g.every_path_passes([x.id for x in clock], [g.exit], set(rec))
+        ok = bool(rec) and okp
     rep.check(ok, R, 'Shuffle.__init__: a clock-derived seed is stored in options.shuffle_seed',
               'the seed derived from the clock is not recorded on the options: child processes '
               'cannot be given it', key='seed:recorded', func=init.qualname, where=ctx.where(init, init.node))
+    stores = [n for n in ast.walk(init.node) if isinstance(n, ast.Assign) and any(
+        dotted(t) == 'self.seed' for t in n.targets)]
+    src = set()
+    for n in stores:
+        src |= sources_of(n.value, assigns)
+    rep.check(bool(stores) and any(x.endswith('options.shuffle_seed') for x in src), R,
+              'Shuffle takes an explicit --shuffle-seed from the options',
+              'self.seed is not initialised from options.shuffle_seed (sources: %s)' % sorted(src),
+              key='seed:explicit', func=init.qualname, where=ctx.where(init, init.node))
     sp = m.func('runner.spawn_layer_in_subprocess')
     ext = [c for c in own_calls(sp.node) if isinstance(c.func, ast.Attribute) and
            c.func.attr in ('extend', 'append') and is_name(c.func.value, 'args') and c.args and
@@ -244,13 +254,6 @@ def r4_seed_propagation(ctx, rep, R='C11.R4'):
               'options.shuffle', 'children are started without the seed of this process (each '
               'child would derive its own from the clock)', key='seed:child-args', func=sp.qualname,
               where=ctx.where(sp, sp.node))
-    # the Shuffle feature is constructed before any child is spawned: configure() precedes run_tests
-    seedsrc = [n for n in ast.walk(init.node) if isinstance(n, ast.Assign) and any(
-        dotted(t) == 'self.seed' for t in n.targets) and
-        (dotted(n.value) or '').endswith('options.shuffle_seed')]
-    rep.check(len(seedsrc) == 1, R, 'Shuffle takes an explicit --shuffle-seed from the options',
-              'self.seed is not initialised from options.shuffle_seed', key='seed:explicit',
-              func=init.qualname, where=ctx.where(init, init.node))
 
 
 def r5_seed_reported(ctx, rep, R='C11.R5'):
